@@ -4,6 +4,8 @@ package memstore
 
 import (
 	"context"
+	"crypto/sha256"
+	"encoding/json"
 	"fmt"
 	"math/big"
 	"sync"
@@ -14,12 +16,12 @@ import (
 )
 
 type Store struct {
-	mu      sync.Mutex
-	Logs    []*ledger.ChainedLog   // persisted entries in arrival order
-	Batches [][]*ledger.ChainedLog // batches as received
-	Attempts int                   // InsertLogs calls (including failed ones)
+	mu       sync.Mutex
+	Logs     []*ledger.ChainedLog   // persisted entries in arrival order
+	Batches  [][]*ledger.ChainedLog // batches as received
+	Attempts int                    // InsertLogs calls (including failed ones)
 	// Hook is called at the start of every store operation (scheduling point); a non-nil error fails the operation.
-	Hook func(op string) error
+	Hook  func(op string) error
 	Reads []string // read operations served, for diagnostics
 	// Rejected: batches refused because they violate a uniqueness constraint of the schema (duplicate log id)
 	Rejected []string
@@ -195,7 +197,7 @@ func (f *fold) Balance(acc, asset string) *big.Int {
 }
 
 func (f *fold) Tx(id string) *ledger.Transaction { return f.txs[id] }
-func (f *fold) TxIDs() []string                   { return f.order }
+func (f *fold) TxIDs() []string                  { return f.order }
 func (f *fold) AccountMeta(acc string) metadata.Metadata {
 	return cpMeta(f.accMeta[acc])
 }
@@ -362,4 +364,25 @@ func deepCopyLog(l *ledger.ChainedLog) *ledger.ChainedLog {
 		c.Data = ledger.DeleteMetadataLogPayload{TargetType: p.TargetType, TargetID: cpTarget(p.TargetID), Key: p.Key}
 	}
 	return &c
+}
+
+// SpecHash: the digest the chain is defined by, written out independently of Log.ChainLog / ComputeHash: SHA-256 over the
+// JSON of the previous entry's hash (when there is one) followed by the JSON of the entry with id 0 and no hash, each ended
+// by a line feed. Only the payload ("data") is rendered by the repository's own marshalling.
+func SpecHash(prev *ledger.ChainedLog, l *ledger.ChainedLog) []byte {
+	type entry struct {
+		Type           ledger.LogType `json:"type"`
+		Data           any            `json:"data"`
+		Date           ledger.Time    `json:"date"`
+		IdempotencyKey string         `json:"idempotencyKey"`
+		ID             *big.Int       `json:"id"`
+		Hash           []byte         `json:"hash"`
+	}
+	h := sha256.New()
+	enc := json.NewEncoder(h)
+	if prev != nil {
+		_ = enc.Encode(prev.Hash)
+	}
+	_ = enc.Encode(entry{Type: l.Type, Data: l.Data, Date: l.Date, IdempotencyKey: l.IdempotencyKey, ID: big.NewInt(0)})
+	return h.Sum(nil)
 }
